@@ -25,13 +25,13 @@ type GenCfg struct {
 
 	// feature switches (true = disabled)
 	NoVars, NoArith, NoMethods, NoDatetime, NoRegex, NoKeyvalue, NoPredItem bool
-	NoAny, NoFilter, NoIdx, NoLiteralRoot, NoDecimal, NoStartsWith         bool
-	NoWildKey                                                              bool
-	NoRoot                                                                 bool // no $ (used for root-independent step sequences)
-	AccessorsOnly                                                          bool // C07: accessors and filters over them
-	ErrBias                                                                bool // more type mismatches
-	PredTopPct                                                             int  // share of predicate check expressions at top level
-	HardErrPct                                                             int  // share of constructs that raise non-suppressible errors
+	NoAny, NoFilter, NoIdx, NoLiteralRoot, NoDecimal, NoStartsWith          bool
+	NoWildKey                                                               bool
+	NoRoot                                                                  bool // no $ (used for root-independent step sequences)
+	AccessorsOnly                                                           bool // C07: accessors and filters over them
+	ErrBias                                                                 bool // more type mismatches
+	PredTopPct                                                              int  // share of predicate check expressions at top level
+	HardErrPct                                                              int  // share of constructs that raise non-suppressible errors
 }
 
 var (
@@ -96,7 +96,7 @@ func (g *pgen) n(k int, label string) int {
 	}
 	return uniform(g.t, k, label)
 }
-func (g *pgen) chance(pct int, label string) bool { return g.n(100, label) < pct }
+func (g *pgen) chance(pct int, label string) bool     { return g.n(100, label) < pct }
 func (g *pgen) pick(ss []string, label string) string { return ss[g.n(len(ss), label)] }
 
 type gctx struct {
@@ -153,9 +153,9 @@ func (g *pgen) expr(cx gctx) *Node {
 		return g.primaryChain(cx)
 	}
 	switch g.choose("expr",
-		70,                           // primary + chain
-		off(c.NoArith || !deep, 12),  // binary arithmetic
-		off(c.NoArith || !deep, 6),   // unary sign
+		70,                            // primary + chain
+		off(c.NoArith || !deep, 12),   // binary arithmetic
+		off(c.NoArith || !deep, 6),    // unary sign
 		off(c.NoPredItem || !deep, 5), // (predicate).chain
 	) {
 	case 1:
@@ -254,15 +254,15 @@ func (g *pgen) accessor(cx gctx) *Node {
 	deep := g.budget > 0
 	ao := c.AccessorsOnly
 	switch g.choose("acc",
-		34,                                   // .key
-		off(c.NoWildKey, 8),                  // .*
-		12,                                   // [*]
-		off(c.NoAny, 6),                      // .**
-		off(c.NoIdx, 12),                     // [subs]
-		off(c.NoFilter || !deep, 12),         // ?()
-		off(c.NoMethods || ao, 16),           // .method()
+		34,                                       // .key
+		off(c.NoWildKey, 8),                      // .*
+		12,                                       // [*]
+		off(c.NoAny, 6),                          // .**
+		off(c.NoIdx, 12),                         // [subs]
+		off(c.NoFilter || !deep, 12),             // ?()
+		off(c.NoMethods || ao, 16),               // .method()
 		off(c.NoDecimal || c.NoMethods || ao, 3), // .decimal()
-		off(c.NoDatetime || ao, 6),           // datetime methods
+		off(c.NoDatetime || ao, 6),               // datetime methods
 	) {
 	case 0:
 		return &Node{K: KKey, S: g.pick(c.Keys, "key")}
